@@ -51,6 +51,21 @@ impl Stream for Listener {
     }
 }
 
+/// The key type handed to the limiter: distinct keys are distinct (`Eq` compares the value) but they all hash alike - a legal
+/// `Hash` implementation (equal keys hash equally), and the worst case for anything that identifies a key by its hash.
+#[derive(Clone, PartialEq, Eq, Debug)]
+struct HKey(u64);
+impl std::hash::Hash for HKey {
+    fn hash<H: std::hash::Hasher>(&self, state: &mut H) {
+        0u8.hash(state);
+    }
+}
+impl std::fmt::Display for HKey {
+    fn fmt(&self, f: &mut std::fmt::Formatter<'_>) -> std::fmt::Result {
+        write!(f, "{}", self.0)
+    }
+}
+
 #[derive(Default)]
 struct KeyState {
     /// keys of arrivals, in arrival order, not yet seen by the keymaker
@@ -114,14 +129,14 @@ fn run_one(scn: u64, s: &Sched, rng: &mut StdRng) -> OneResult {
     let lst = Rc::new(RefCell::new(ListenerState::default()));
     let ks = Rc::new(RefCell::new(KeyState::default()));
     let ks2 = ks.clone();
-    let keymaker = move |_c: &Ch| -> u64 {
+    let keymaker = move |_c: &Ch| -> HKey {
         let mut k = ks2.borrow_mut();
         if let Some((pa, pk)) = k.considering.take() {
             emit("Shed", json!({"ch": pa, "k": pk}));
         }
         let (a, key) = k.pending_keys.pop_front().expect("keymaker called without arrival");
         k.considering = Some((a, key));
-        key
+        HKey(key)
     };
     let mut stream = Some(Box::pin(
         Listener(lst.clone()).max_channels_per_key(n, keymaker),
